@@ -16,7 +16,7 @@ Spec == Init /\ [][Next]_i
 \* the universe is well formed: default literals fit their type kind, markers are in range, names are unique
 WellFormed ==
   LET t == AllTypes[i]
-  IN /\ (t.k = "seq" => /\ t.extAfter >= 0 - 1 /\ t.extAfter < Len(t.comps)
+  IN /\ (t.k = "seq" => /\ t.extAfter >= 0 - 1 /\ (t.extAfter < Len(t.comps) \/ (t.comps = <<>> /\ t.extAfter = 0))   \* { ... }
                         /\ \A a, b \in 1..Len(t.comps) : a # b => t.comps[a].name # t.comps[b].name
                         /\ \A a \in 1..Len(t.comps) : (t.comps[a].mode = "def") = (t.comps[a].dflt # <<>>))
      /\ (t.k = "choice" => t.extAfter >= 0 - 1 /\ t.extAfter < Len(t.alts))
